@@ -101,7 +101,7 @@ func VP_C15_ReadOnlyCallsDoNotMutate() {
 		d.Check()
 	}
 	vpTraceEnd()
-	vpAssert("no-mutating-file-system-event", vpFsMutations() == 0)
+	vpAssert("model: no-mutating-file-system-event", vpFsMutations() == 0)
 	vpAssert("directory-byte-identical", vpFsSame(before, vpFsSnapshot(base)))
 	vpCover("end")
 }
